@@ -3,6 +3,7 @@
 //@ assume: T4: `Movement::process`, `Movement::cloned_difficulty_value` and `DifficultyValues::eval` are replaced by stubs during verification (float pipeline); their frame - they do not write idx, the object arrays or the count fields - is assumed. Native replays run the real skill.
 //@ assume: inductive-step argument: obligations are proved from ANY state satisfying the representation invariant (count.len()==N, diff_objects.len()==max(N,1)-1, idx<=diff_objects.len()+1, N==0 ==> idx==0, attrs count exactly the first idx palpable objects); that `new` establishes it is not proved (float-heavy object conversion)
 //@ assume: bounded: N (number of palpable objects) is fixed per harness; per-object count deltas (fruit or droplet, tiny droplets <= 2^16) are symbolic; idx and the nth argument are fully symbolic
+//@ attr: file=src/catch/performance/gradual.rs anchor=`pub fn next(&mut self, state: CatchScoreState)` insert=`#[cfg(kani)] pub(crate) fn __verif_from_parts(difficulty: CatchGradualDifficulty) -> Self { Self { difficulty } }`
 use super::*;
 use crate::catch::difficulty::object::LastObject;
 
@@ -187,3 +188,120 @@ h!(u12_catch_protocol_n4, step_protocol, 4);
 //@ bound: bounded: N = 3; idx, k all usize
 //@ clause: C02: one next()/nth(k) processes exactly the difficulty objects belonging to the consumed palpable objects (object j+1 -> difficulty object j), each once and in increasing order
 h!(u12_catch_processed_n3, step_processed, 3);
+
+// ---- C03: gradual performance = one-shot performance of the partial play ------------------------------------------
+use crate::catch::performance::gradual::CatchGradualPerformance;
+use crate::catch::performance::CatchPerformance;
+use crate::catch::{CatchPerformanceAttributes, CatchScoreState};
+use crate::util::map_or_attrs::MapOrAttrs;
+
+static mut REC: Option<CatchPerformance<'static>> = None;
+static mut REC_CALLS: u32 = 0;
+
+/// Recording replacement for `CatchPerformance::calculate` (the float pp pipeline): keeps the builder it is called on.
+fn rec_calculate(this: CatchPerformance<'_>) -> Result<CatchPerformanceAttributes, crate::model::mode::ConvertError> {
+    unsafe {
+        REC_CALLS += 1;
+        REC = Some(std::mem::transmute::<CatchPerformance<'_>, CatchPerformance<'static>>(this));
+    }
+    Ok(CatchPerformanceAttributes::default())
+}
+
+fn any_user_difficulty() -> Difficulty {
+    let bits: u32 = kani::any();
+    let mut d = Difficulty::new().mods(bits);
+    if kani::any() {
+        d = d.passed_objects(kani::any());
+    }
+    if kani::any() {
+        d = d.clock_rate(kani::any());
+    }
+    if kani::any() {
+        d = d.lazer(kani::any());
+    }
+    d
+}
+
+fn perf_step(n: usize) {
+    let (mut g, _) = any_state(n);
+    let total = n;
+    // the settings the caller created the gradual calculator with (possibly carrying their own passed_objects)
+    g.difficulty = any_user_difficulty();
+    let d = g.difficulty.clone();
+    let idx0 = g.idx;
+    let remaining = total - idx0;
+    let mut p = CatchGradualPerformance::__verif_from_parts(g);
+    let state = CatchScoreState {
+        max_combo: kani::any(),
+        fruits: kani::any(),
+        droplets: kani::any(),
+        tiny_droplets: kani::any(),
+        tiny_droplet_misses: kani::any(),
+        misses: kani::any(),
+    };
+    let which: u8 = kani::any();
+    let k: usize = kani::any();
+    let (ret, consumed) = match which % 3 {
+        0 => (p.next(state.clone()), if remaining > 0 { 1 } else { 0 }),
+        1 => (p.last(state.clone()), remaining),
+        _ => (p.nth(state.clone(), k), if k < remaining { k + 1 } else { remaining }),
+    };
+    assert!(p.len() == remaining - consumed, "C15.e gradual performance processes min(n+1, remaining) objects (last: all remaining)");
+    assert!(ret.is_some() == (remaining > 0), "C15.e gradual performance returns None exactly when nothing remains");
+    unsafe {
+        if remaining == 0 {
+            assert!(REC_CALLS == 0, "C03 nothing is calculated when nothing remains");
+        } else {
+            assert!(REC_CALLS == 1, "C03 exactly one performance calculation per step");
+            let i = (idx0 + consumed) as u32;
+            match REC.take() {
+                Some(rec) => {
+                    let attrs = match &rec.map_or_attrs {
+                        MapOrAttrs::Attrs(a) => a.clone(),
+                        MapOrAttrs::Map(_) => {
+                            assert!(false, "C03 gradual performance evaluates the attributes of the prefix, not a map");
+                            return;
+                        }
+                    };
+                    assert!(attrs.n_fruits + attrs.n_droplets == i, "C03 the evaluated attributes are those after i objects");
+                    // what a one-shot user builds: Performance(attrs).difficulty(D).passed_objects(i).state(S)
+                    let expect = CatchPerformance::from_map_or_attrs(MapOrAttrs::Attrs(attrs))
+                        .difficulty(d)
+                        .passed_objects(i)
+                        .state(state);
+                    assert!(rec == expect, "C03 gradual performance evaluates exactly the one-shot builder: same settings, passed_objects(i), same state");
+                    std::mem::forget(rec);
+                    std::mem::forget(expect);
+                }
+                None => assert!(false, "C03 builder recorded"),
+            }
+        }
+    }
+    std::mem::forget(p);
+}
+
+macro_rules! hp {
+    ($name:ident, $n:expr) => {
+        #[kani::proof]
+        #[kani::unwind(8)]
+        #[kani::stub(<Movement as StrainSkill>::process, stub_process)]
+        #[kani::stub(<Movement as StrainSkill>::cloned_difficulty_value, stub_value)]
+        #[kani::stub(crate::catch::difficulty::DifficultyValues::eval, stub_eval)]
+        #[kani::stub(crate::catch::performance::CatchPerformance::calculate, rec_calculate)]
+        fn $name() {
+            perf_step($n);
+        }
+    };
+}
+
+//@ obl: id=U12.catch.perf.n0 harness=u12_catch_perf_n0 stubs=yes props=C03,C15 tier=quick kind=bounded
+//@ fns: CatchGradualPerformance::next, CatchGradualPerformance::nth, CatchGradualPerformance::last, CatchGradualPerformance::len
+//@ bound: bounded: 0 objects; state position, n, the score state (all u32 fields) and the caller's Difficulty (mods bits, passed_objects, clock rate, lazer) symbolic; CatchPerformance::calculate replaced by a recording stub
+//@ clause: C15 (e): nth(state, n) processes min(n+1, remaining) objects, last processes all remaining, next one; None exactly when nothing remains. C03: the performance builder that gets calculated equals Performance(attributes after i objects).difficulty(D).passed_objects(i).state(S) field for field, i = objects consumed so far
+hp!(u12_catch_perf_n0, 0);
+
+//@ obl: id=U12.catch.perf.n3 harness=u12_catch_perf_n3 stubs=yes props=C03,C15 tier=quick kind=bounded
+//@ fns: CatchGradualPerformance::next, CatchGradualPerformance::nth, CatchGradualPerformance::last, CatchGradualPerformance::len
+//@ bound: bounded: 3 objects; state position, n, the score state (all u32 fields) and the caller's Difficulty (mods bits, passed_objects, clock rate, lazer) symbolic; CatchPerformance::calculate replaced by a recording stub
+//@ clause: C15 (e): nth(state, n) processes min(n+1, remaining) objects, last processes all remaining, next one; None exactly when nothing remains. C03: the performance builder that gets calculated equals Performance(attributes after i objects).difficulty(D).passed_objects(i).state(S) field for field, i = objects consumed so far
+hp!(u12_catch_perf_n3, 3);
